@@ -77,6 +77,10 @@ def generate(rng, tier):
                       for i in range(rng.randint(1, 4))]
             if not any(a["ops"] and a["ops"][-1]["op"] == "raise" for a in actors):
                 actors[rng.randrange(len(actors))]["ops"].append({"op": "raise", "type": "E"})
+            if rng.random() < 0.4:
+                for actor in actors:
+                    if actor["ops"] and actor["ops"][-1]["op"] == "raise":
+                        actor["ops"][-1]["chained"] = True
             scenario = {"start": start, "roots": "direct", "resources": {}, "actors": actors}
             if rng.random() < 0.3:
                 scenario["till"] = start + 50
@@ -251,6 +255,13 @@ def _check_run(bad, index, kind, scenario, rec):
             if rec.outcome != want:
                 bad("root-exception", "run %d: root %s raised %r but run() ended with %r"
                     % (index, first_bad[3], want[1], rec.outcome))
+            elif len(first_bad) > 7:
+                # "unchanged": the exception it was raised from is still its context
+                context = getattr(rec.raised, "__context__", None)
+                if getattr(context, "serial", None) != first_bad[7]:
+                    bad("root-exception-context", "run %d: root %s raised %r while handling "
+                        "exception %r, but the exception leaving run() has context %r"
+                        % (index, first_bad[3], want[1], first_bad[7], context))
         else:
             if rec.outcome[0] != "raise" or rec.outcome[1][0] != "ActivityLeak":
                 bad("leak-not-reported", "run %d: root %s returned a value but run() ended "
